@@ -101,7 +101,7 @@ func TestC18Builtins(t *testing.T) {
 		if rerr != nil || root == nil {
 			rt.Fatalf("VIOLATION C18/direct [root-scope]: provider.Get(Scope) = %v, %v", rootAny, rerr)
 		}
-		x.genHistory(rt, histOpts{MaxSteps: 20, MaxDepth: 4, CloseScopes: false, NoProvClose: true})
+		x.genHistory(rt, histOpts{MaxSteps: 20, MaxDepth: 4, CloseScopes: false, NoProvClose: true, CtxKinds: []int{0, 0, 1, 2, 3, 4, 5}})
 		var f *Failure
 		nt := x.Stats.MaxDepth >= 2
 		for i := range cfg.Regs {
@@ -157,6 +157,12 @@ func TestC18Builtins(t *testing.T) {
 						}
 					}
 				}
+				if ar.CtxKind == 5 && inherits && ar.UserCtx != nil {
+					wd, _ := ar.UserCtx.Deadline()
+					if gd, ok := ctx.Deadline(); !ok || !gd.Equal(wd) {
+						f = fail("C18", "ctx-deadline", fmt.Sprintf("inherit=%v", a != tag), "s%d.Context() reports deadline %v (%v), the context it descends from (given to s%d) has %v", tag, gd, ok, a, wd)
+					}
+				}
 				if ar.CtxKey != nil && inherits {
 					if v := ctx.Value(ar.CtxKey); v != ar.CtxVal {
 						f = fail("C18", "ctx-values", fmt.Sprintf("inherit=%v", a != tag), "s%d.Context().Value(key of s%d) = %v, want %v", tag, a, v, ar.CtxVal)
@@ -193,7 +199,19 @@ func TestC18Builtins(t *testing.T) {
 						below = append(below, x.R.Scopes[t2].S.Context())
 					}
 				}
+				// hold the close cascade inside the first instance Close() it reaches: cancellation must reach the
+				// contexts of nil-context descendants through the context chain itself, not only through the cascade
+				pk := kit.NewParker(func(gp kit.GatePoint) bool { return gp.Kind == kit.GateCloseEnter })
+				x.W.SetGate(pk.Gate)
 				x.R.CancelScope(tag)
+				kit.WaitOrTimeout(pk.Parked(), 10*time.Millisecond)
+				for _, bc := range below {
+					if pk.WasHit() && !kit.WaitOrTimeout(bc.Done(), time.Second) {
+						f = fail("C18", "ctx-cancel", "nil-child-direct", "while the close cascade of s%d is held inside an instance's Close(), the context of a child created with a nil context is still not cancelled 1 s after the caller's cancel", tag)
+					}
+				}
+				pk.Release()
+				x.W.SetGate(nil)
 				if !kit.WaitOrTimeout(ctx.Done(), 5*time.Second) {
 					f = fail("C18", "ctx-cancel", "own", "the caller's context of s%d was cancelled but s%d.Context() is not done after 5 s", tag, tag)
 				}
